@@ -324,7 +324,8 @@ func oracleC22(x *scn.Exec) []mc.Violation {
 	}
 	id := sm.SwapId.String()
 	for _, o := range x.W.Log {
-		if o.Node == scn.IDA && o.Kind == "send" && o.MsgType == mtOpening && o.SwapID == id {
+		// attempts count, delivered or not: a retransmitter that keeps trying against a failing transport has not stopped
+		if o.Node == scn.IDA && (o.Kind == "send" || o.Kind == "send-failed") && o.MsgType == mtOpening && o.SwapID == id {
 			if byInc[o.Inc] == nil {
 				byInc[o.Inc] = &inc{}
 				order = append(order, o.Inc)
@@ -388,8 +389,23 @@ func oracleC22(x *scn.Exec) []mc.Violation {
 			}
 		}
 	}
+	// a swap that is no longer waiting for the claim payment must not have a retransmitter registered at all
+	// (probe: the manager refuses a second sender for an id that still has one)
+	if !x.A.Life.Dead() && !waiting(string(sm.Current)) && sm.Data.OpeningTxBroadcasted != nil {
+		if err := x.A.Mgr.AddSender(id, c22Probe{}); err != nil {
+			out = append(out, mc.Violation{Property: "C22", Key: fmt.Sprintf("retransmitter_still_registered:state=%s", stateSuffix(string(sm.Current))),
+				Detail: fmt.Sprintf("swap is in %s, the message manager still holds a retransmitter for it (%v)", sm.Current, err)})
+		} else {
+			x.A.Mgr.RemoveSender(id)
+		}
+	}
 	return out
 }
+
+type c22Probe struct{}
+
+func (c22Probe) SendMessage(string, []byte, int) error { return nil }
+func (c22Probe) Stop()                               {}
 
 func orDefault(s string) string {
 	if s == "" {
